@@ -22,13 +22,23 @@ def cases(tier, seed):
         names = r.sample(FNAMES, nf)
         fields = [[nm, r.choice(FDT)] for nm in names]
         if r.random() < 0.5:
-            yield {"kind": "pl", "fields": fields, "len": r.choice([0, 1, 2, 7, 20]), "seed": r.randrange(10**6)}
+            yield {"kind": "pl", "fields": fields, "len": r.choice([0, 1, 2, 7, 20, 20, 64, 65, 257]), "seed": r.randrange(10**6)}
         else:
             shape = [r.choice([0, 1, 2, 3, 4]), r.choice([0, 1, 2, 3])]
             mode = r.choice(["ragged", "ragged", "all_empty", "uniform"])
+            if r.random() < 0.08:
+                # extents around the block sizes an implementation may read or write in (64, 128, 256): mostly empty cells,
+                # points in the LAST rows / columns
+                big = r.choice([63, 64, 65, 66, 129, 257])
+                shape = [big, r.choice([1, 2])] if r.random() < 0.7 else [r.choice([1, 2]), big]
+                mode = "late"
             lens = []
-            for _ in range(shape[0] * shape[1]):
-                lens.append(0 if mode == "all_empty" else (3 if mode == "uniform" else r.choice([0, 0, 1, 2, 5])))
+            ncell = shape[0] * shape[1]
+            for c in range(ncell):
+                if mode == "late":
+                    lens.append(r.choice([1, 2]) if c >= ncell - 4 or r.random() < 0.03 else 0)
+                else:
+                    lens.append(0 if mode == "all_empty" else (3 if mode == "uniform" else r.choice([0, 0, 1, 2, 5])))
             fl = [f for f in fields if not f[1].startswith("S")] or [["x", "f8"]]
             yield {"kind": "pla", "fields": fl, "shape": shape, "lens": lens, "seed": r.randrange(10**6)}
 
